@@ -394,7 +394,8 @@ class Gen:
                 decls.append("decl %s %s %s %s" % (hx(f.bytes), dc, df, " ".join(f.dec)))
             else:
                 decls.append("decl %s - - bad" % hx(f.bytes))
-        ops = ["init %d %d" % (self.chmax, self.bound)] + decls + self.ops
+        water = getattr(self, "water", None)
+        ops = ["init %d %d" % (self.chmax, self.bound) + (" %d %d" % water if water else "")] + decls + self.ops
         return Case(cid, ops, {"keep_prefix": 1 + len(decls)})
 
 
@@ -841,6 +842,73 @@ def id_lifecycle_cases(rng, chmax, length, stride=1, offset=0, prefix="i"):
             g.op("recv %s -" % by_ch[k]); g.op("recv %s -" % by_ch[k])
         g.op("dump")
         cases.append(g.case("%s%d" % (prefix, n)))
+    return cases
+
+
+def water_mark_cases(rng, prefix="w"):
+    """One handler run drains a channel's queue completely whatever the amount buffered so far is -
+    below, exactly at and above the high-water mark (pausing is decided between batches, not inside
+    a run): queue entries whose sizes add up to the mark exactly, to one byte less and one more."""
+    cases = []
+    n = 0
+    for nframes in (2, 3, 5):
+        for delta in (-1, 0, 1):
+            for bound in (8,):
+                g = Gen(rng, chmax=2, bound=bound, via_stream=0.0)
+                h1 = g.open_channel(1); g.bind_opened(h1, 1)
+                g.op("wscript w:1000000"); g.op("write")
+                frames = [amqp.body(1, bytes([65 + j]) * (20 + 7 * j)) for j in range(nframes + 2)]
+                mark = sum(len(f) for f in frames[:nframes]) + delta
+                g.water = (max(mark, 1), 0)
+                for f in frames:
+                    g.op("send %s send %s" % (h1, hx(f)))
+                g.op("ev 1")
+                g.op("dump")
+                g.op("wscript w:1000000"); g.op("write"); g.op("dump")
+                g.op("ev 1"); g.op("dump")
+                n += 1
+                cases.append(g.case("%s%d" % (prefix, n)))
+    return cases
+
+
+def listener_mid_content_cases(rng, prefix="m"):
+    """A listener (return / confirm / blocked) is registered or replaced BETWEEN two frames of one
+    content-bearing message (returned message, delivery, get answer) on that channel: the message
+    still completes and reaches whoever is due."""
+    cases = []
+    n = 0
+    for kind in ("return", "deliver", "get"):
+        for gap in (1, 2):                      # after the method / after the header
+            for what in ("setret", "setret-replace", "setconf", "setblocked"):
+                g = Gen(rng, chmax=2, bound=4, via_stream=0.0)
+                h1 = g.open_channel(1); g.bind_opened(h1, 1)
+                cl = g.consume(h1, "t1")
+                lst0 = None
+                if what == "setret-replace" or kind == "return":
+                    lst0 = g.new_listener()
+                    g.op("send %s setret %s" % (h1, lst0)); g.op("ev 1")
+                first = {"return": ret(1, 312, "NO_ROUTE", "ex", "rk"), "deliver": deliver(1, "t1", 1, False, "", "k"), "get": get_ok(1, 1, False, "e", "k", 0)}[kind]
+                if kind == "get":
+                    g.op("send %s send %s" % (h1, hx(amqp.client_only_samples(1)["basic.get"]))); g.op("ev 1")
+                frs = [g.use(first), g.use(header(1, 3)), g.use(body(1, b"abc"))]
+                for i, f in enumerate(frs):
+                    if i == gap:
+                        l = g.new_listener()
+                        if what in ("setret", "setret-replace"):
+                            g.op("send %s setret %s" % (h1, l)); g.op("ev 1")
+                        elif what == "setconf":
+                            g.op("send %s setconf %s" % (h1, l)); g.op("ev 1")
+                        else:
+                            g.op("setblocked " + l); g.op("ev blocked")
+                    g.op("frame " + hx(f.bytes))
+                if kind == "get":
+                    g.op("recv %s -" % h1)
+                # a second, undisturbed message of the same kind
+                if kind == "deliver":
+                    g.feed(g.deliver(cl), direct=True)
+                g.finish()
+                n += 1
+                cases.append(g.case("%s%d" % (prefix, n)))
     return cases
 
 
